@@ -55,8 +55,10 @@ def gen(rng, i, tier):
 
 
 def build(case, order=None):
+    sc.decoy_instances()
     s = StoG(**{"<b_coh>^2": case["bcoh"], "<b_tot^2>": case["btot"]})
     s.qmin, s.qmax = case["qmin"], case["qmax"]
+    sc.decoy_instances()      # before and after: a second object in the process changes nothing for this one
     steps = []
     seq = list(order if order is not None else range(len(case["datasets"])))
     shared = None
